@@ -615,10 +615,112 @@ static void pk_sec() {
 	gcry_mpi_release(p); gcry_mpi_release(q); gcry_mpi_release(g); gcry_mpi_release(y); gcry_mpi_release(x);
 }
 
+
+// ============================================================================================================
+// every PacketSigPrepare* overload across the octet boundaries of its parameters: octets vs the model, re-decoding
+// ============================================================================================================
+static std::string nota_tok(const tmcg_openpgp_notations_t &n) {
+	if (n.empty()) return "_"; std::string r;
+	for (size_t i = 0; i < n.size(); i++) { if (i) r += ","; r += xb(S(n[i].first)).substr(1) + ";" + xb(S(n[i].second)).substr(1); }
+	return r;
+}
+static oct txt_oct(size_t n) { oct r(n); for (size_t i = 0; i < n; i++) r[i] = 'a' + (unsigned char)gen().below(26); return r; }
+static void prep_case(const char *kind, int type, int pk, int h, uint32_t st, uint32_t t2, const oct &flags, const oct &issuer, const oct &s1, const oct &s2,
+                      unsigned n1, unsigned n2, bool bis, const tmcg_openpgp_notations_t &nota, const oct &out) {
+	Rec("prep").t(kind).u(type).u(pk).u(h).u(st).u(t2).b(S(flags)).b(S(issuer)).b(S(s1)).b(S(s2)).u(n1).u(n2).d(bis).t(nota_tok(nota)).b(S(out));
+	g_cases++;
+	// the prepared part inside a signature packet must be readable by the library itself (its context buffers hold 2047 octets per string)
+	bool fits = out.size() < 65536 + 6 && s1.size() < 2048; for (auto &n : nota) if (n.first.size() >= 2048 || n.second.size() >= 2048) fits = false;
+	if (std::string(kind) == "revocation" && s1.size() >= 2047) fits = false;
+	if (!fits || out.size() < 6) return;
+	gcry_mpi_t r = mpi_bits(200), s = mpi_bits(200); oct pkt, left = rnd_oct(2);
+	if (pk == TMCG_OPENPGP_PKALGO_RSA) PGP::PacketSigEncode(out, left, r, pkt); else PGP::PacketSigEncode(out, left, r, s, pkt);
+	gcry_mpi_release(r); gcry_mpi_release(s);
+	pdec_case(pkt);
+	Dec d(pkt);
+	std::string ctx = std::string(kind) + " policy/reason " + std::to_string(s1.size()) + " octets, " + std::to_string(nota.size()) + " notations";
+	if (d.tag != 2) { propfail(std::string("prepare-redecode-") + kind, "signature packet built from PacketSigPrepare (" + ctx + ") is refused by PacketDecode (" + std::to_string((int)d.tag) + ") hashed=" + xb(S(out).substr(0, 600))); return; }
+	bool ok = d.ctx.type == type && d.ctx.pkalgo == pk && d.ctx.hashalgo == h && d.ctx.sigcreationtime == st && d.ctx.hspdlen == out.size() - 6 && !memcmp(d.ctx.hspd, out.data() + 6, out.size() - 6);
+	size_t named = 0; for (auto &n : nota) if (!n.first.empty()) named++;
+	if (ok && d.nota.size() != named) ok = false;
+	if (ok) { size_t k = 0; for (auto &n : nota) { if (n.first.empty()) continue; if (d.nota[k].first != n.first || d.nota[k].second != n.second) ok = false; k++; } }
+	std::string k2 = kind;
+	if (ok && (k2 == "detached" || k2 == "detached5" || k2 == "certification" || k2 == "ts_hash" || k2 == "ts_sig" || k2 == "attest")) ok = std::string((const char*)d.ctx.policyuri) == S(s1);
+	if (ok && k2 == "revocation") ok = d.ctx.revocationcode == n1 && std::string((const char*)d.ctx.revocationreason) == S(s1);
+	if (ok && (k2 == "detached" || k2 == "detached5" || k2 == "certification")) ok = d.ctx.sigexpirationtime == t2;
+	if (ok && k2 == "self") ok = d.ctx.keyexpirationtime == t2 && d.ctx.keyflagslen == flags.size() && !memcmp(d.ctx.keyflags, flags.data(), flags.size());
+	if (!ok) propfail(std::string("prepare-redecode-") + kind, "signature packet built from PacketSigPrepare (" + ctx + ") does not decode to the given parameters, hashed=" + xb(S(out).substr(0, 600)));
+}
+static bool TT = false;
+static void prep_sweep() {
+	static const size_t SL[] = { 0, 1, 2, 190, 191, 255, 256, 257, 2046, 2047, 2048, 8190, 65535 };
+	static const int PK[] = { TMCG_OPENPGP_PKALGO_RSA, TMCG_OPENPGP_PKALGO_DSA, TMCG_OPENPGP_PKALGO_ECDSA, TMCG_OPENPGP_PKALGO_EDDSA };
+	const size_t NS = TT ? 13 : 11;
+	auto issuer_of = [&](unsigned i) { static const size_t IL[] = { 8, 20, 0, 32, 7 }; return rnd_oct(IL[i % 5]); };
+	auto notations = [&](unsigned variant, size_t big) {
+		tmcg_openpgp_notations_t n;
+		switch (variant % 6) {
+		case 0: break;
+		case 1: n.push_back(std::make_pair(txt_oct(5), txt_oct(big))); break;                      // long value
+		case 2: n.push_back(std::make_pair(txt_oct(big % 2048 == 0 ? 1 : big % 2048), txt_oct(3))); break;   // long name
+		case 3: for (int i = 0; i < 12; i++) n.push_back(std::make_pair(txt_oct(1 + gen().below(20)), txt_oct(gen().below(40)))); break;   // many
+		case 4: n.push_back(std::make_pair(txt_oct(255), txt_oct(256))); n.push_back(std::make_pair(txt_oct(256), txt_oct(255))); n.push_back(std::make_pair(txt_oct(257), txt_oct(257))); break;
+		case 5: n.push_back(std::make_pair(txt_oct(300), txt_oct(big > 300 ? big - 300 : 0))); break;
+		}
+		return n; };
+	unsigned cnt = 0;
+	for (size_t li = 0; li < NS; li++) for (int rep = 0; rep < 2; rep++, cnt++) {
+		size_t L = SL[li]; int pk = PK[cnt % 4], h = 8 + cnt % 3; uint32_t st = 1 + gen().below(0xFFFFFFFEUL), t2 = (cnt % 3) ? 1 + gen().below(1UL << 30) : 0;
+		oct policy = txt_oct(L), issuer = issuer_of(cnt), flags = rnd_oct(cnt % 4 == 3 ? 0 : 1 + cnt % 3); bool bis = cnt & 1;
+		{ oct o; int ty = 0x10 + cnt % 4; if (cnt % 5 == 0) ty = 0x18;
+		  PGP::PacketSigPrepareSelfSignature((tmcg_openpgp_signature_t)ty, (tmcg_openpgp_pkalgo_t)pk, (tmcg_openpgp_hashalgo_t)h, st, t2, flags, issuer, bis, o);
+		  prep_case("self", ty, pk, h, st, t2, flags, issuer, oct(), oct(), 0, 0, bis, tmcg_openpgp_notations_t(), o);
+		  if (rep == 0) { oct o2; PGP::PacketSigPrepareSelfSignature((tmcg_openpgp_signature_t)ty, (tmcg_openpgp_hashalgo_t)h, st, t2, flags, issuer, o2);
+			prep_case("self", ty, TMCG_OPENPGP_PKALGO_DSA, h, st, t2, flags, issuer, oct(), oct(), 0, 0, true, tmcg_openpgp_notations_t(), o2); } }
+		{ oct o, revoker = (cnt % 3 == 2) ? oct() : rnd_oct(20); int pk2 = PK[(cnt + 1) % 4];
+		  PGP::PacketSigPrepareDesignatedRevoker((tmcg_openpgp_pkalgo_t)pk, (tmcg_openpgp_hashalgo_t)h, st, flags, issuer, (tmcg_openpgp_pkalgo_t)pk2, revoker, bis, o);
+		  prep_case("revoker", 0x1F, pk, h, st, 0, flags, issuer, oct(), revoker, pk2, 0, bis, tmcg_openpgp_notations_t(), o);
+		  if (rep == 0) { oct o2; PGP::PacketSigPrepareDesignatedRevoker((tmcg_openpgp_hashalgo_t)h, st, flags, issuer, (tmcg_openpgp_pkalgo_t)pk2, revoker, o2);
+			prep_case("revoker", 0x1F, TMCG_OPENPGP_PKALGO_DSA, h, st, 0, flags, issuer, oct(), revoker, pk2, 0, true, tmcg_openpgp_notations_t(), o2); } }
+		{ oct o; int ty = cnt % 2; PGP::PacketSigPrepareDetachedSignature((tmcg_openpgp_signature_t)ty, (tmcg_openpgp_pkalgo_t)pk, (tmcg_openpgp_hashalgo_t)h, st, t2, S(policy), issuer, o);
+		  prep_case("detached", ty, pk, h, st, t2, oct(), issuer, policy, oct(), 0, 0, false, tmcg_openpgp_notations_t(), o);
+		  if (rep == 0) { oct o2; PGP::PacketSigPrepareDetachedSignature((tmcg_openpgp_signature_t)ty, (tmcg_openpgp_hashalgo_t)h, st, t2, S(policy), issuer, o2);
+			prep_case("detached", ty, TMCG_OPENPGP_PKALGO_DSA, h, st, t2, oct(), issuer, policy, oct(), 0, 0, false, tmcg_openpgp_notations_t(), o2); } }
+		{ oct o, fpr = rnd_oct(cnt % 3 == 0 ? 20 : (cnt % 3 == 1 ? 32 : 8)); int ty = cnt % 2;
+		  PGP::PacketSigPrepareDetachedSignatureV5((tmcg_openpgp_signature_t)ty, (tmcg_openpgp_pkalgo_t)pk, (tmcg_openpgp_hashalgo_t)h, st, t2, S(policy), fpr, o);
+		  prep_case("detached5", ty, pk, h, st, t2, oct(), fpr, policy, oct(), 0, 0, false, tmcg_openpgp_notations_t(), o);
+		  if (rep == 0) { oct o2; PGP::PacketSigPrepareDetachedSignatureV5((tmcg_openpgp_signature_t)ty, (tmcg_openpgp_hashalgo_t)h, st, t2, S(policy), fpr, o2);
+			prep_case("detached5", ty, TMCG_OPENPGP_PKALGO_DSA, h, st, t2, oct(), fpr, policy, oct(), 0, 0, false, tmcg_openpgp_notations_t(), o2); } }
+		{ oct o; static const int RT[] = { 0x20, 0x28, 0x30 }; int ty = RT[cnt % 3]; unsigned rc = cnt % 4;
+		  PGP::PacketSigPrepareRevocationSignature((tmcg_openpgp_signature_t)ty, (tmcg_openpgp_pkalgo_t)pk, (tmcg_openpgp_hashalgo_t)h, st, (tmcg_openpgp_revcode_t)rc, S(policy), issuer, o);
+		  prep_case("revocation", ty, pk, h, st, 0, oct(), issuer, policy, oct(), rc, 0, false, tmcg_openpgp_notations_t(), o);
+		  if (rep == 0) { oct o2; PGP::PacketSigPrepareRevocationSignature((tmcg_openpgp_signature_t)ty, (tmcg_openpgp_hashalgo_t)h, st, (tmcg_openpgp_revcode_t)rc, S(policy), issuer, o2);
+			prep_case("revocation", ty, TMCG_OPENPGP_PKALGO_DSA, h, st, 0, oct(), issuer, policy, oct(), rc, 0, false, tmcg_openpgp_notations_t(), o2); } }
+		{ oct o; int ty = 0x10 + cnt % 4;
+		  PGP::PacketSigPrepareCertificationSignature((tmcg_openpgp_signature_t)ty, (tmcg_openpgp_pkalgo_t)pk, (tmcg_openpgp_hashalgo_t)h, st, t2, S(policy), issuer, o);
+		  prep_case("certification", ty, pk, h, st, t2, oct(), issuer, policy, oct(), 0, 0, false, tmcg_openpgp_notations_t(), o);
+		  if (rep == 0) { oct o2; PGP::PacketSigPrepareCertificationSignature((tmcg_openpgp_signature_t)ty, (tmcg_openpgp_hashalgo_t)h, st, t2, S(policy), issuer, o2);
+			prep_case("certification", ty, TMCG_OPENPGP_PKALGO_DSA, h, st, t2, oct(), issuer, policy, oct(), 0, 0, false, tmcg_openpgp_notations_t(), o2); } }
+		// the three overloads with notations: notation name / value lengths across 255/256/257 and 2047/2048, many notations, with and without policy
+		for (unsigned nv = 0; nv < 6; nv++) {
+			tmcg_openpgp_notations_t nota = notations(nv + cnt, L); oct pol = (nv % 2) ? oct() : txt_oct(L % 300);
+			{ oct o, th = rnd_oct(32); int tpk = PK[(cnt + 2) % 4], thh = 8 + (cnt + 1) % 3;
+			  PGP::PacketSigPrepareTimestampSignature((tmcg_openpgp_pkalgo_t)pk, (tmcg_openpgp_hashalgo_t)h, st, S(pol), issuer, (tmcg_openpgp_pkalgo_t)tpk, (tmcg_openpgp_hashalgo_t)thh, th, nota, o);
+			  prep_case("ts_hash", 0x40, pk, h, st, 0, oct(), issuer, pol, th, tpk, thh, false, nota, o); }
+			{ oct o, tsig = rnd_oct(20 + gen().below(200));
+			  PGP::PacketSigPrepareTimestampSignature((tmcg_openpgp_pkalgo_t)pk, (tmcg_openpgp_hashalgo_t)h, st, S(pol), issuer, tsig, nota, o);
+			  Rec("prep").t("ts_sig").u(0x40).u(pk).u(h).u(st).u(0).b("").b(S(issuer)).b(S(pol)).b(S(tsig)).u(0).u(0).d(0).t(nota_tok(nota)).b(S(o)); g_cases++; }   // the embedded signature is random: octets only
+			{ oct o, att = rnd_oct(32 * (cnt % 4));
+			  PGP::PacketSigPrepareAttestationSignature((tmcg_openpgp_pkalgo_t)pk, (tmcg_openpgp_hashalgo_t)h, st, S(pol), issuer, att, nota, o);
+			  prep_case("attest", 0x16, pk, h, st, 0, oct(), issuer, pol, att, 0, 0, false, nota, o); }
+		}
+	}
+}
+
 // ============================================================================================================
 int main(int argc, char **argv) {
 	Args args(argc, argv);
-	bool T = args.thorough();
+	bool T = args.thorough(); TT = T;
 	gcry_check_version(NULL);
 	gcry_control(GCRYCTL_DISABLE_SECMEM, 0);
 	gcry_control(GCRYCTL_INITIALIZATION_FINISHED, 0);
@@ -782,6 +884,7 @@ int main(int argc, char **argv) {
 		static const size_t FL[] = { 255, 256, 257, 65535, 65536, 65537, 70000 };
 		for (size_t i = 0; i < (T ? 7u : 5u); i++) fpr_case(rnd_oct(FL[i]));
 	}
+	if (on("prep")) prep_sweep();
 	if (on("pkt")) {
 		static const size_t DL[] = { 0, 1, 2, 184, 185, 186, 187, 190, 191, 192, 193, 8376, 8377, 8378, 8379, 8382, 8383, 8384, 8385, 65536 };
 		for (size_t i = 0; i < 20; i++) { oct d = rnd_oct(DL[i]); pk_lit(d, true); pk_sed_seipd_mdc_aead(d); pk_uid(S(rnd_oct(DL[i])), false); }
